@@ -300,6 +300,31 @@ def build_c05(g, cases, arcs, quick, rnd):
                 return {"p1": {"lat": E_(lat1), "lon": E_(lon1)}, "p2": {"lat": E_(lat2), "lon": E_(lon2)}, "inv": inv, "dir": dr, "rev": rv,
                         "cos1": cosd(lat1), "cos2": cosd(lat2), "ell": e[0], "f": [lat1, lon1, lat2, lon2]}
             evs.append(g.ev("ICLOSE", tag, close))
+    # very short lines (1 mm .. 100 m) in every direction: closure with the direct routine, swap symmetry
+    for e in g.ells[:4] if quick else g.ells:
+        E = e[1]
+        a = float(E.semimaj)
+        for lat1 in ([-70.0, -33.3, 0.0, 12.5, 58.0] if quick else [-85.0, -70.0, -33.3, -1.0, 0.0, 12.5, 45.0, 58.0, 80.0]):
+            for L in [0.001, 0.005, 0.05, 0.5, 0.707, 3.0, 10.0, 100.0]:
+                brg = rnd.uniform(0, 360)
+                lon1 = rnd.uniform(-179, 179)
+                lat2 = lat1 + math.degrees(L * math.cos(math.radians(brg)) / 6.36e6)
+                lon2 = lon1 + math.degrees(L * math.sin(math.radians(brg)) / (6.38e6 * max(math.cos(math.radians(lat1)), 0.05)))
+                tag = "short line %g m" % L
+
+                def close(lat1=lat1, lon1=lon1, lat2=lat2, lon2=lon2, E=E, e=e):
+                    inv = g.inverse(lat1, lon1, lat2, lon2, E)
+                    dr = g.direct(lat1, lon1, inv["f"][1], inv["f"][0], E)
+                    rv = g.direct(dr["f"][0], dr["f"][1], dr["f"][2], inv["f"][0], E)
+                    return {"p1": {"lat": E_(lat1), "lon": E_(lon1)}, "p2": {"lat": E_(lat2), "lon": E_(lon2)}, "inv": inv, "dir": dr,
+                            "rev": rv, "cos1": cosd(lat1), "cos2": cosd(lat2), "ell": e[0], "f": [lat1, lon1, lat2, lon2]}
+                evs.append(g.ev("ICLOSE", tag, close))
+
+                def swap(lat1=lat1, lon1=lon1, lat2=lat2, lon2=lon2, E=E, e=e, a=a):
+                    ab = g.inverse(lat1, lon1, lat2, lon2, E)
+                    ba = g.inverse(lat2, lon2, lat1, lon1, E)
+                    return {"p1": [lat1, lon1], "p2": [lat2, lon2], "ab": ab, "ba": ba, "sinsig": E_(abs(math.sin(ab["f"][0] / a))), "ell": e[0]}
+                evs.append(g.ev("ISWAP", tag, swap))
     for (la, lo) in [(0.0, 0.0), (-37.5, 144.25), (89.9, -10.0), (-90.0, 0.0)]:
         evs.append(g.ev("ICOIN", "coincident", lambda: {"out": g.inverse(la, lo, la, lo, g.ells[0][1]), "p": [la, lo]}))
     return evs
@@ -342,6 +367,8 @@ def run_family(ctx, prop):
         desc = {"clause": clause, "kind": ev["k"]}
         if ev["k"] == "DSYM":
             desc["rel"] = ev["o"].get("rel")
+        if ev["tag"].startswith("short line"):
+            desc["line_shorter_than_10m"] = float(ev["tag"].split()[2]) < 10.0
         ctx.violation(desc, json.dumps(strip(ev), default=str)[:900], case={"kind": ev["k"], "tag": ev["tag"]})
     ctx.extra["clauses_of_other_properties_failing_here"] = other
     for e in evs:
@@ -350,7 +377,7 @@ def run_family(ctx, prop):
     for e in evs[:1] + evs[len(evs) // 2:len(evs) // 2 + 1] + evs[-1:]:
         ctx.sample(json.loads(json.dumps(strip(e), default=str))) if False else ctx.sample({"kind": e["k"], "tag": e["tag"], "exc": e["exc"],
                                                                                             "keys": sorted(e["o"].keys())})
-    ctx.extra["binding_selftest"] = selftest(g, arcs, prop)
+    ctx.selftest(selftest, g, arcs, prop)
     return evs
 
 
